@@ -7,6 +7,7 @@ import (
 	"math/big"
 	"sort"
 	"strings"
+	"verif/checker/internal/cfgutil"
 
 	"golang.org/x/tools/go/ssa"
 
@@ -263,7 +264,7 @@ func ruleIExact(c *engine.Context) *report.Rule {
 					continue
 				}
 				N := sym(bd.role, numF)
-				if why := boundConforms(le, asc, bd.role, om, bd.form, N); why != "" {
+				if why := boundConforms(le.Region, asc, bd.role, om, bd.form, N); why != "" {
 					ok = false
 					fails[bd.role+": "+bd.form.String()] = why
 				}
@@ -279,6 +280,11 @@ func ruleIExact(c *engine.Context) *report.Rule {
 			r.Instances++
 			lo, hi, has := rg.Bounds(intarith.LinForm{Coef: map[string]int64{stepSym: 1}})
 			ok := has && ((dir == "ascending" && hi.Sign() <= 0) || (dir == "descending" && lo.Sign() >= 0))
+			if !ok {
+				// or the range is empty: the values the loop would start and end with are the
+				// conforming bounds, and the first one already fails the loop condition
+				ok = emptyRangeSkip(p, fn, rg, dir == "ascending", func(role string) (string, string) { return sym(role, numF), flag(role) })
+			}
 			r.Oblige(ok)
 			if !ok {
 				fails["skipped enumeration"] = "a path returns without enumerating although the step is not known to have the wrong sign for this subscript"
@@ -383,7 +389,7 @@ func isForm(f intarith.LinForm, s1 string, c1 int64, s2 string, c2 int64, k int6
 }
 
 // boundConforms checks one normalised bound against Python's slice.indices; "" = conforms.
-func boundConforms(le *intarith.LoopEntry, asc bool, role string, omitted bool, F intarith.LinForm, N string) string {
+func boundConforms(le intarith.Region, asc bool, role string, omitted bool, F intarith.LinForm, N string) string {
 	zero := big.NewInt(0)
 	_ = zero
 	fN := intarith.LinForm{Coef: map[string]int64{N: 1}}
@@ -569,4 +575,63 @@ func valueDependentConstruction(c *engine.Context, T, idxT *types.Named, numF in
 		}
 	}
 	return out
+}
+
+// emptyRangeSkip: on a partition that returns without entering the enumeration loop, the values the
+// loop would have started and ended with have conforming forms (same check as for the loop
+// partitions) and the start already fails the loop's condition: nothing is selected, rightly.
+func emptyRangeSkip(p *load.Program, fn *ssa.Function, rg intarith.Region, asc bool, names func(role string) (sym, flag string)) bool {
+	var startV, endV ssa.Value
+	for _, l := range cfgutil.Loops(fn) {
+		h := l.Header
+		ifi, ok := h.Instrs[len(h.Instrs)-1].(*ssa.If)
+		if !ok {
+			continue
+		}
+		bo, ok := ifi.Cond.(*ssa.BinOp)
+		if !ok {
+			continue
+		}
+		ph, ok := bo.X.(*ssa.Phi)
+		if !ok || ph.Block() != h {
+			continue
+		}
+		if (asc && bo.Op != token.LSS) || (!asc && bo.Op != token.GTR) {
+			continue
+		}
+		for i, e := range ph.Edges {
+			if !l.Blocks[h.Preds[i]] {
+				startV = e
+			}
+		}
+		endV = bo.Y
+	}
+	if startV == nil || endV == nil {
+		return false
+	}
+	// the start fails the condition: asc: start >= end; desc: start <= end
+	if asc && !rg.ValueLeq(endV, startV) {
+		return false
+	}
+	if !asc && !rg.ValueLeq(startV, endV) {
+		return false
+	}
+	for _, bd := range []struct {
+		role string
+		v    ssa.Value
+	}{{"start", startV}, {"end", endV}} {
+		form, ok := rg.FormOf(bd.v)
+		if !ok {
+			return false
+		}
+		N, fl := names(bd.role)
+		om, tested := rg.Flags()[fl]
+		if !tested {
+			return false
+		}
+		if why := boundConforms(rg, asc, bd.role, om, form, N); why != "" {
+			return false
+		}
+	}
+	return true
 }
